@@ -298,6 +298,44 @@ example : -- non-vacuity of clause 2: a long tail of late operations on a comple
   simp only [List.mem_cons, List.mem_nil_iff, or_false] at hop
   rcases hop with h | h | h | h | h | h | h | h | h | h | h <;> subst h <;> simp [LateOp.allowed] <;> decide
 
+/-- what the record says about how the run ended -/
+def HandlerStatus.Rec.outcomeFields (r : Rec) : Nat × Status × Option Nat × Option Err × Option Nat :=
+  (r.runId, r.status, r.result, r.error, r.completedAt)
+
+theorem C15.idleClear_keeps (s : St) (run : Nat) :
+    (s.idleClear run).1.row.map Rec.outcomeFields = s.row.map Rec.outcomeFields := by
+  unfold St.idleClear St.uhs
+  split
+  · rfl
+  · cases h : s.row with
+    | none => simp [h]
+    | some r =>
+      by_cases hr : r.runId = run
+      · simp [h, hr, Rec.apply, Rec.outcomeFields]
+      · simp [h, hr]
+
+/-- **C15, clause 2 for requests that are still in flight when the run ends.**  The writes the stack issues on
+behalf of an external request (`send_event` to a run it holds, and the reload of a released run) pass
+`idle_since=None` and no status (regenerated table), so any number of them, for any runs, in any state of the
+store faults, leaves what the record says about the outcome — run, status, result, error, `completed_at` —
+exactly as it was: a request that passed `resolve_handler` on a stale `running` view and is delivered after
+the terminal status was stored cannot put the record back to `running`. -/
+theorem C15_late_request_keeps_outcome :
+    (GenHandlerStatus.unidleWrites.map (·.2) = ["_", "_"]) ∧
+    ∀ (s : St) (runs : List Nat),
+      (runs.foldl (fun x r => (x.idleClear r).1) s).row.map Rec.outcomeFields = s.row.map Rec.outcomeFields := by
+  refine ⟨by decide, ?_⟩
+  intro s runs
+  induction runs generalizing s with
+  | nil => rfl
+  | cons r rs ih => rw [List.foldl_cons, ih, C15.idleClear_keeps]
+
+example : -- non-vacuity: a completed row, three late deliveries (one hits a store fault, one is for another run)
+    let s1 := { ((C15.started 1).writeEvent 1 { kind := .stop, tok := 9 } false).1 with failUhs := 1 }
+    s1.row.map Rec.outcomeFields = some (1, .completed, some 9, none, some 2) ∧
+    ([1, 1, 2].foldl (fun x r => (x.idleClear r).1) s1).row.map (fun r => (r.status, r.updatedAt)) = some (.completed, 3) := by
+  decide
+
 /-! ## clause 3: a handler never stays running after its run has ended -/
 
 /-- The clause at full strength: for every program, schedule and transient fault assignment, once the run
